@@ -36,6 +36,7 @@ ENC = {
     "xmlhex": lambda x: b"".join(b"&#x%02x;" % c for c in x),
     "xmlhexU": lambda x: b"".join(b"&#X%02X;" % c for c in x),
     "unescape": lambda x: b"unescape('" + b"".join(b"%%%02X" % c for c in x) + b"')",
+    "unescapeP": lambda x: b"unescape('" + b"".join((b"%%%02X" % c) if (c in (37, 39) or c < 32 or c > 126) else bytes([c]) for c in x) + b"')",
     "concat": lambda x: b"'" + x[: len(x) // 2] + b"' + \"" + x[len(x) // 2:] + b'"',
     "reverse": lambda x: b"reverse('" + x[::-1] + b"')",
     "StrReverse": lambda x: b'StrReverse("' + x[::-1] + b'")',
@@ -61,7 +62,7 @@ PAYLOADS = [
     (b"x", []),
     (b"short1", []),
 ]
-PRE = [b"", b"x = ", b"data: ", b"abc;\n"]
+PRE = [b"", b"x = ", b"data: ", b"abc;\n", b"C:\\Users\\bob\\"]       # (the last one: an undecoded indicator glued to the blob and running into it)
 SUF = [b"", b" ", b"\n", b" ;"]
 
 
